@@ -484,11 +484,12 @@ func init() {
 			fmt.Println("INFRA: no case executed")
 			return 2
 		}
-		cl := []plan{{"snap3-d2", 80}, {"stalesuffix3-d2", 65}}
+		cl := []plan{{"snap3-d2", 80}, {"stalesuffix3-d2", 65}, {"restoring3-d3", 60}, {"slowrestore3-d2", 30}, {"filesnap3-d2", 60}}
 		if tier == "thorough" {
-			cl = []plan{{"snap3-d3", 500}, {"bigsnap3-d2", 200}, {"stalesuffix3-d3", 300}}
+			cl = []plan{{"snap3-d3", 500}, {"bigsnap3-d2", 200}, {"stalesuffix3-d3", 300}, {"restoring3-d4", 400}, {"slowrestore3-d3", 300}}
 		}
-		cc, ex, code := runClusterPlans(prop, cl, rep, reported)
+		// an installation that loses acknowledged or committed entries shows as a C04 / C07 violation
+		cc, ex, code := runClusterPlansAlso(prop, cl, rep, reported, []string{"C04", "C07", "C14"})
 		if code != 0 {
 			return code
 		}
